@@ -182,6 +182,9 @@ func cfgDefault(i int) world.Cfg {
 	if i%3 == 1 {
 		c.MaxOrd = 12
 	}
+	if i%6 == 1 {
+		c.MaxReplicas = 12 // two-digit ordinals inside the desired set: created, updated, scaled in
+	}
 	if i%4 == 3 {
 		gentle(&c)
 	}
@@ -192,6 +195,9 @@ func cfgSlotHeavy(i int) world.Cfg {
 	c := world.DefaultCfg()
 	if i%3 == 1 {
 		c.MaxOrd = 12 // ordinals across the decimal-width boundary
+	}
+	if i%6 == 1 {
+		c.MaxReplicas = 12 // two-digit ordinals inside the desired set: created, updated, scaled in
 	}
 	if i%2 == 0 {
 		c.SlotHeavy = true
